@@ -27,12 +27,13 @@ for _n, _tiers in ((2, ('quick', 'thorough')), (3, ('quick', 'thorough'))):
 # ---------------------------------------------------------------- C17.b (builder2: user constraints -> bounds / initial values of the optimiser)
 _CONSTUS = ['src/Enum/Enums.cpp', 'src/Model/Constraints.cpp', 'src/Model/ConsItem.cpp', 'src/Model/CovParamId.cpp', 'src/Model/Option_VarioFit.cpp',
             'src/Basic/AStringable.cpp', 'src/Basic/Utilities.cpp']
-for _ni, _tiers in ((0, ('quick', 'thorough')), (1, ('quick', 'thorough')), (2, ('quick', 'thorough')), (3, ('thorough',))):
-    K('C17.b.%d' % _ni, property='C17', engine='symex', harness='C17/cons.cpp', entries=['k_fresh', 'k_defaults'], tus=_CONSTUS,
-      defines={'all': {'VF_NITEM': _ni, 'VF_NPAR': 2}}, tiers=_tiers,
+# (number of items, number of parameters, tiers): two parameters exercise the rank glue of the param / lower / upper arrays
+for _ni, _npar, _tiers in ((0, 2, ('quick', 'thorough')), (1, 2, ('quick', 'thorough')), (2, 1, ('quick', 'thorough')), (2, 2, ('thorough',)), (3, 2, ('thorough',))):
+    K(('C17.b.%d' % _ni) if (_ni, _npar) != (2, 1) else 'C17.b.2.p1', property='C17', engine='symex', harness='C17/cons.cpp', entries=['k_fresh', 'k_defaults'], tus=_CONSTUS,
+      defines={'all': {'VF_NITEM': _ni, 'VF_NPAR': _npar}}, tiers=_tiers,
       bounds={'quick': 'constraint list of exactly %d item(s), each with igrf in [0,1], icov in [0,2], any of the 10 element types, iv1, iv2 in [0,2], any constraint type '
-                       '(LOWER, DEFAULT, UPPER, EQUAL), any integer value |v| <= 2^20; 2 parameters with any (imod in [0,1], icov in [0,2], element type, ivar, jvar in [0,2]); '
-                       'pre-state: (fresh) param/lower/upper undefined, (defaults) param any integer, lower/upper undefined or any integers with lower <= param <= upper' % _ni},
+                       '(LOWER, DEFAULT, UPPER, EQUAL), any integer value |v| <= 2^20; %d parameter(s) with any (imod in [0,1], icov in [0,2], element type, ivar, jvar in [0,2]); '
+                       'pre-state: (fresh) param/lower/upper undefined, (defaults) param any integer, lower/upper undefined or any integers with lower <= param <= upper' % (_ni, _npar)},
       timeout_ms={'quick': 120000, 'thorough': 600000}, validate={'quick': 30, 'thorough': 60}, validate_doubles='int',
       what='st_model_auto_constraints_apply, st_parid_decode, st_affect (model_auto.cpp, included as a translation unit), constraints_get, Constraints::addItem, ConsItem / CovParamId '
            'constructors and clone: per parameter, the lower (upper) bound after the call is the value of a LOWER/EQUAL (UPPER/EQUAL) item concerning the parameter, intersected with a '
